@@ -90,7 +90,7 @@ SPECS = {
     "C04": dict(
         title="no panics on well-formed programs (both profiles)",
         streams=[("basic", 700, 23000, 40), ("binds", 700, 23000, 40), ("drops", 700, 23000, 40), ("subs", 400, 15000, 40),
-                 ("vardrops", 500, 15000, 40)],
+                 ("vardrops", 500, 15000, 40), ("subsmax", 250, 8000, 40)],
         proj=dict(keep_ops=None, keep_events=(), classes=True),
         oracle=O.oracle_no_panic, profiles=("debug", "release"), dump=False,
         nontrivial=lambda src, ops: sum(1 for l in src if l == "stabilise") >= 2,
